@@ -509,3 +509,17 @@ func ownerOf(t *Type, k string) string {
 	}
 	return t.Name
 }
+
+
+// With2 returns a copy of a string / integer key value derived from tag (used by harnesses
+// that need replies to be pure functions of their arguments).
+func (v *V) With2(tag string) *V {
+	c := v.Clone()
+	switch v.T.Base().Kind {
+	case String:
+		c.S = "id-for-" + tag
+	case Int32, Int64:
+		c.I = int64(len(tag))
+	}
+	return c
+}
